@@ -461,11 +461,13 @@ def run(ctx):
 
 def _run(ctx, base):
     bound = 1 if ctx.quick else 2
+    in_core = (lambda params: True) if ctx.quick else H.core_scenarios(scenario_params)
     specs = [{
-        "module": "checks.c13", "params": dict(params, _tmp=base), "bound": bound,
+        "module": "checks.c13", "params": dict(params, _tmp=base),
+        "bound": bound if in_core(params) else 1,
         "opts": {"time_horizon": 25.0, "drain": 2.0, "max_points": 8000, "free_switch_cost": 1,
                      "time_jump_cost": None if ctx.quick else 1},
-        "budget": 2500 if ctx.quick else 25000,
+        "budget": 2500 if ctx.quick else 30000,
     } for params in scenario_params(ctx.tier)]
     items = [("process", params) for params in process_params(ctx.tier)]
     items += [("cosched", spec) for spec in specs]
